@@ -736,3 +736,9 @@ void bhkRagdollTemplateData::GetStringRefs(std::vector<NiStringRef*>& refs) {
 
 	refs.emplace_back(&name);
 }
+
+void bhkRagdollTemplateData::GetPtrs(std::set<NiPtr*>& ptrs) {
+	NiObject::GetPtrs(ptrs);
+
+	constraints.GetPtrs(ptrs);
+}
